@@ -355,12 +355,19 @@ PROPS = {
         functions=[CT + "Continuum." + m for m in ("get_best_alignment", "get_best_soft_alignment", "copy", "copy_flush", "merge", "__add__",
                                                    "annotators", "categories")]
                   + [DS + "AbstractDissimilarity.valid_alignments", DS + "AbstractDissimilarity._build_arrays_continuum",
-                     AL + "Alignment.gamma_k_disorder", DS + "PositionalSporadicDissimilarity.d", DS + "AbsoluteCategoricalDissimilarity.d"],
+                     AL + "Alignment.gamma_k_disorder", DS + "PositionalSporadicDissimilarity.d", DS + "AbsoluteCategoricalDissimilarity.d",
+                     # entry points whose contracts carry modifies=[] / fresh results: their frame obligations are discharged here too
+                     CT + "Continuum.get_fast_alignment", CT + "Continuum.to_csv", CT + "Continuum.__getitem__#annotator",
+                     DS + "AbstractDissimilarity._build_arrays_alignment",
+                     SP + "ShuffleContinuumSampler.sample_from_continuum", SP + "StatisticalContinuumSampler.sample_from_continuum",
+                     CS + "CorpusShufflingTool.corpus_from_reference#names", CS + "CorpusShufflingTool.corpus_from_reference#count",
+                     CS + "CorpusShufflingTool.false_neg_shuffle"],
         effects="C14", effects_oracle=CT + "Continuum.compute_gamma#purity",
         oracles=[CT + "Continuum.compute_gamma#purity"],
         bounded=[dict(oracle=CT + "Continuum.compute_gamma#purity",
-                      what="entry points without a heap contract yet (fast alignment, first window, compute_gamma, gamma_cat/k, samplers, "
-                           "corpus shuffling tool, __getitem__, to_csv): inputs snapshotted before / after, derived continua mutated afterwards")],
+                      what="entry points without a heap contract (first window, compute_gamma, gamma_cat/k, sampler initialisation, four corpus "
+                           "shuffles, file readers) and, redundantly, those with one: inputs snapshotted before / after, derived continua mutated "
+                           "afterwards")],
         design_ref="DESIGN.md section 4 C14, 1.5 (frames), 1.6",
         not_decided=["third-party calls write nothing reachable from our objects (trusted)",
                      "Alignment.disorder memoises its value in the alignment it belongs to (not an input continuum / dissimilarity)"],
